@@ -141,8 +141,11 @@ impl Transformation<String> {
     use Transformation as T;
     Ok(match self {
       T::Replace(r) => T::Replace(Replace {
+        // `compute` unwraps the regex: reject an invalid one when the rule is loaded
+        replace: Regex::new(&r.replace)
+          .map(|_| r.replace.clone())
+          .map_err(|_| TransformError::InvalidRegex(r.replace.clone()))?,
         source: parse_meta_var(&r.source, lang)?,
-        replace: r.replace.clone(),
         by: r.by.clone(),
       }),
       T::Substring(s) => T::Substring(Substring {
